@@ -16,6 +16,13 @@ OPTION_VALUES = {
     "node_labels": (True,), "hyperedge_labels": (True,), "rescale_sizes": (False,), "seed": (3,),
     "include_self": (True,), "cutoff": (5,), "tol": (1e-3,), "max_iter": (5,), "iterations": (3,),
     "p": (0.5,), "k": (2,), "create_using": (None,),
+    # further optional parameters (an audit of the API surface listed every optional parameter that was never varied)
+    "normalize": (False,), "return_phantom_graph": (True,), "label_attribute": ("lbl",), "keep_isolates": (False,),
+    "rotate_edges": (True,), "conn_lines": (False,), "equidistant": (True,), "center": ((1.0, 1.0),), "radius": (0.1,),
+    "node_size": (11,), "node_fc": ("red",), "node_ec": ("blue",), "node_lw": (2,), "edge_fc": ("green",), "alpha": (0.8,),
+    "dyad_lw": (2,), "dyad_color": ("red",), "dyad_style": ("dashed",), "num_samples": (20,), "resolution": (0.5,),
+    "aspect": ("auto",), "sep": (0.5,), "h_angle": (20,), "v_angle": (30,), "layer_color": ("blue",), "node_shape": ("s",),
+    "delimiter": (",",), "timesteps": (5,), "n_steps": (5,), "T": (1,), "dt": (0.01,), "sigma": (2,), "id_temp": (-7,),
 }
 
 
